@@ -186,6 +186,10 @@ class PortInst:
         return False
 
     def monitor(self):
+        """A monitor is requested at the start of every run from reset: the environment restarts with it."""
+        if self.env is not None:
+            self.env.reset()
+            self.last_seen = None
         return self._monitor(self) if self._monitor is not None else NullMonitor()
 
     # explore.impl_step hooks: the observed outputs of each cycle are kept for the environment automata
@@ -523,7 +527,15 @@ class Env:
     with `inst.peek`); AXI-Lite partners drive from their state only."""
 
     def __init__(self, master, partner, s_kind):
+        import copy
+        self._pristine = copy.deepcopy((master, partner))
         self.master, self.partner, self.s_kind = master, partner, s_kind
+        self.pending = None
+
+    def reset(self):
+        """Back to the initial automata (a new run starts from reset: the partner memory is the initial one)."""
+        import copy
+        self.master, self.partner = copy.deepcopy(self._pristine)
         self.pending = None
 
     def gen(self, inst, rng, t):
